@@ -242,6 +242,12 @@ def _str_post(ctx):
         else:
             REC.held("write", sig, "C04:override-raises", case)
         return
+    if ctx.exc is not None and core.is_praatio_error(ctx.exc) and not blanks and any(
+            t["entries"] and (t["entries"][0][0] < (data["min"] if minT is None else minT) or t["entries"][-1][-2] > (data["max"] if maxT is None else maxT)) for t in data["tiers"]):
+        # "if an entry would fall outside the requested span the save raises": demanded with blank filling on (D6); with blank filling
+        # off the pinned tree writes the entries verbatim - a library that refuses there as well does what the sentence says
+        REC.skip("write", "entry-outside-requested-span-refused-with-blank-filling-off")
+        return
     if ctx.exc is not None:
         spec_none = blanks and thr is not None and any(
             t["t"] == "I" and spec_written([tuple(e) for e in t["entries"]], data["min"] if minT is None else minT, data["max"] if maxT is None else maxT, thr)[0] is None
